@@ -346,3 +346,69 @@ Section Oracles.
   Definition rows_then (t : stable) (s1 s2 : sel) : sres stable :=
     sbind (rows t (QOne s1)) (fun t1 => rows t1 (QOne s2)).
 End Oracles.
+
+(* ---- histories on ONE table object: selections interleaved with edits of the
+   index column.  The model has no state besides the columns (the
+   implementation's row-name cache is C07's subject), so a selection after an
+   edit is the selection on the edited column. ------------------------------- *)
+
+Inductive hop :=
+| HSel (q : query)                                          (* rows[q], rows.indices[q], rows.mask[q] *)
+| HSetCell (i : Z) (v : N)                                  (* t[index, i] = v *)
+| HSetCellName (nm : N) (cnt : option Z) (off : Z) (v : N)  (* t[index, 'nm::cnt<<off'] = v *)
+| HSetIdx (vals : list N).                                  (* t[index] = array, t.index = array *)
+
+Inductive hobs :=
+| HViews (r : sres (list nat)) (i : sres (list Z)) (m : sres (list bool))
+| HDone
+| HFail (e : serr).
+
+Definition set_idx (t : stable) (col : list N) : stable := mkST col (s_cols t).
+
+Section History.
+  Variable matches : N -> N -> bool.
+  Variable ord : list N -> list N.
+
+  Definition hset_cell (t : stable) (i : Z) (v : N) : stable * hobs :=
+    match wrap1 (slen t) i with
+    | Some k => (set_idx t (list_set (s_idx t) k v), HDone)
+    | None => (t, HFail EIndex)
+    end.
+
+  Definition hstep (t : stable) (o : hop) : stable * hobs :=
+    match o with
+    | HSel q => (t, HViews (rows_positions matches ord t q) (indices matches ord t q) (mask matches ord t q))
+    | HSetCell i v => hset_cell t i v
+    | HSetCellName nm cnt off v =>
+        match name_index (s_idx t) nm cnt off with
+        | Ok i => hset_cell t i v
+        | Err e => (t, HFail e)
+        end
+    | HSetIdx vals =>
+        if Nat.eqb (length vals) (slen t) then (set_idx t vals, HDone) else (t, HFail EValue)
+    end.
+
+  Fixpoint hrun (t : stable) (ops : list hop) : list hobs :=
+    match ops with
+    | [] => []
+    | o :: rest => snd (hstep t o) :: hrun (fst (hstep t o)) rest
+    end.
+
+  Definition hfinal (t : stable) (ops : list hop) : stable := fold_left (fun s o => fst (hstep s o)) ops t.
+
+  (* the index column after the edits of a history, by itself: what a reader
+     of the history expects the column to be *)
+  Definition edit_col (col : list N) (o : hop) : list N :=
+    match o with
+    | HSel _ => col
+    | HSetCell i v => match wrap1 (length col) i with Some k => list_set col k v | None => col end
+    | HSetCellName nm cnt off v =>
+        match scan_name col nm cnt off with
+        | Ok i => match wrap1 (length col) i with Some k => list_set col k v | None => col end
+        | Err _ => col
+        end
+    | HSetIdx vals => if Nat.eqb (length vals) (length col) then vals else col
+    end.
+
+  Definition edited (col : list N) (ops : list hop) : list N := fold_left edit_col ops col.
+End History.
